@@ -95,6 +95,7 @@ type Ctx struct {
 	Prop, Tier string
 	Seed       int64
 	Escalated  bool
+	Boost      bool
 	R          *Rng
 	Res        *Result
 	workDir    string
@@ -115,10 +116,21 @@ type Ctx struct {
 
 func (c *Ctx) Thorough() bool { return c.Tier == "thorough" || c.Escalated }
 
-// N picks a budget by tier.
+// N picks a budget by tier. A "boost" (the source of a modelled function changed) multiplies the quick budget
+// by 6 without going beyond the thorough one.
 func (c *Ctx) N(quick, thorough int) int {
 	if c.Thorough() {
 		return thorough
+	}
+	if c.Boost {
+		b := quick * 6
+		if thorough < quick { // smaller-is-larger budgets (e.g. "0 = exhaustive") are left alone
+			return quick
+		}
+		if b > thorough {
+			b = thorough
+		}
+		return b
 	}
 	return quick
 }
